@@ -121,7 +121,6 @@ Proof.
       destruct EB as (d0 & dr & EB).
       unfold distribute_data. cbn [b_data b_dropped]. rewrite EB. cbv beta iota. rewrite <- EB.
       rewrite (BL d0) by (rewrite EB; now left).
-      rewrite (BL (last (block_data inp (seen ++ b) C (avail inp (seen ++ b))) [])) by (apply last_in; congruence).
       set (st2 := {| s_groups := s_groups st1; s_next := s_next st1 + fpp * (avail inp (seen ++ b) - C); s_pend := s_pend st1 |}).
       assert (HI2 : SInv inp st2 ghs1 (seen ++ b) (avail inp (seen ++ b)) (total_missing inp (seen ++ b))).
       { destruct T2 as (A1 & A2 & A3 & A4). split; [exact A1|]. split; [exact A2|]. split; [exact A3 | exact A4]. }
